@@ -441,17 +441,19 @@ def run_stage(st, prop, tier, seed, out, replay=None):
                 cases_by_cid[c.get("cid")] = c
             except Exception:
                 pass
+    grp_cache = {}          # (a group can hold thousands of events and be rejected thousands of times)
     for b in bads:
         failed = [c for c in b["failed"] if c.startswith(prop + ".") or c in st.adopt]
         if failed:
             ev = evs[b["id"]]
-            members = [evs[i] for i in groups.get(group_of.get(b["id"]), [])] if group_of else [ev]
-            cids = []
-            for m in members:
-                if m.get("cid") not in cids:
-                    cids.append(m.get("cid"))
-            grp = [cases_by_cid[c] for c in cids if c in cases_by_cid]
-            out.bad.append((st.name, ev, failed, grp))
+            gkey = group_of.get(b["id"]) if group_of else ("single", b["id"])
+            if gkey not in grp_cache:
+                members = [evs[i] for i in groups.get(gkey, [])] if group_of else [ev]
+                cids = {}
+                for m in members:
+                    cids.setdefault(m.get("cid"), None)
+                grp_cache[gkey] = [cases_by_cid[c] for c in cids if c in cases_by_cid]
+            out.bad.append((st.name, ev, failed, grp_cache[gkey]))
     # (a stage in which events were rejected has established a violation: coverage that depends on the behaviour of the code
     # under test - e.g. "subnormal data accepted" - must not turn it into a tool error)
     if replay is None and not any(b[0] == st.name for b in out.bad):
@@ -664,7 +666,11 @@ def main(argv, registry):
             path = os.path.join(WORK, "replay", f"{prop}.{stage}.{tier}.ndjson")
             with open(path, "w") as f:
                 seen = set()
+                done_groups = set()
                 for ev, failed, grp in items:
+                    if id(grp) in done_groups:
+                        continue
+                    done_groups.add(id(grp))
                     for case in grp:
                         cid = case.get("cid")
                         if cid in seen:
